@@ -16,8 +16,9 @@ import time
 VERIF = os.path.dirname(os.path.dirname(os.path.abspath(__file__)))
 REPO = os.environ.get("VERIF_REPO", "/repo")
 SPEC = os.path.join(VERIF, "spec")
-WORK = os.path.join(VERIF, "work")
-BUILD = os.path.join(VERIF, "build")
+WORK = os.environ.get("VERIF_WORK_DIR", os.path.join(VERIF, "work"))
+BUILD = os.environ.get("VERIF_BUILD_DIR", os.path.join(VERIF, "build"))
+OUT = os.environ.get("VERIF_OUT_DIR", VERIF)   # evidence/ and replays/ live here
 TLA_CP = "/opt/veriftools/tla/tla2tools.jar:/opt/veriftools/tla/CommunityModules-deps.jar"
 
 
@@ -184,7 +185,8 @@ def build_inproc(timeout=900):
     lock_dst = os.path.join(INPROC_DIR, "Cargo.lock")
     if not os.path.exists(lock_dst):
         shutil.copy(lock_src, lock_dst)
-    p = subprocess.run(["cargo", "build", "--offline", "-q"], cwd=INPROC_DIR, env=cargo_env(),
+    p = subprocess.run(["cargo", "build", "--offline", "-q"], cwd=INPROC_DIR,
+                       env=cargo_env({"CARGO_TARGET_DIR": os.path.join(BUILD, "target-inproc")}),
                        stdout=subprocess.PIPE, stderr=subprocess.STDOUT, text=True, timeout=timeout)
     if p.returncode != 0:
         # The code under test may fail to compile after an edit: that is a tool error for the
@@ -409,7 +411,8 @@ def finding_matches(f, key, tags):
     if "key" in f and f["key"] == key:
         return True
     if "match" in f:
-        return all(tags.get(k) == v for k, v in f["match"].items())
+        return all((v in tags.get(k) if isinstance(tags.get(k), (list, tuple, set)) else tags.get(k) == v)
+                   for k, v in f["match"].items())
     return False
 
 
@@ -452,12 +455,12 @@ class Check:
                 self.known_seen[fid]["count"] += 1
                 return False
         path = self.write_replay(key, what, case, expected, observed, commands) if len(self.violations) < 40 \
-            else os.path.join(VERIF, "replays", self.prop, "(not written: more than 40 violations)")
+            else os.path.join(OUT, "replays", self.prop, "(not written: more than 40 violations)")
         self.violations.append({"key": key, "what": what, "replay": path})
         return True
 
     def write_replay(self, key, what, case, expected, observed, commands=None):
-        d = os.path.join(VERIF, "replays", self.prop)
+        d = os.path.join(OUT, "replays", self.prop)
         os.makedirs(d, exist_ok=True)
         path = os.path.join(d, sha(key) + ".json")
         with open(path, "w", encoding="utf-8") as f:
@@ -484,8 +487,8 @@ class Check:
         ev = {"property_id": self.prop, "tier": self.tier, "seed": int(self.seed), "level": level,
               "coverage": cov, "assumptions": self.assumptions, "wall_s": round(wall, 2),
               "violations": len(self.violations)}
-        os.makedirs(os.path.join(VERIF, "evidence"), exist_ok=True)
-        with open(os.path.join(VERIF, "evidence", f"{self.prop}.json"), "w", encoding="utf-8") as f:
+        os.makedirs(os.path.join(OUT, "evidence"), exist_ok=True)
+        with open(os.path.join(OUT, "evidence", f"{self.prop}.json"), "w", encoding="utf-8") as f:
             json.dump(ev, f, indent=1, ensure_ascii=False, default=str)
         for k, v in self.known_seen.items():
             f = v["finding"]
